@@ -422,12 +422,144 @@ let check_chess line f =
     let playable = if tag = "OK" then
         (match parse_model f1 with
          | Some bb -> [("spec:built-board-is-playable", "1", b01 (api_spec_playable (api_abs bb)));
+                       ("spec:builder hash = hash of the same position parsed from text", hn (api_zobrist bb), norm_hex zob);
+                       ("spec:builder piece-hash = from-scratch", hn bb.b_zob, norm_hex mz);
+                       ("spec:builder pins/checkers = from-scratch", hn bb.b_pinned ^ "/" ^ hn (api_diff bb.b_checkers bb.b_pinned), norm_hex pinned ^ "/" ^ norm_hex checkers);
                        ("spec:builder = parser on the same position", "1", (match api_build b with Inl b1 -> b01 (api_board_all_eqb b1 bb) | _ -> "0"))]
          | None -> [("spec:built-board-is-playable", "1", "parser-model-rejects:" ^ f1)])
       else [] in
     cmp_line "BL" line ([("model:place flags", fl, flags); ("model:build result", exp, got);
                          ("spec:never-panics", "no-TRAP", if tag = "TRAP" then tag else "no-TRAP")] @ playable)
   | _ -> failwith "chess fields"
+
+(* ---------- C10 iterator ---------- *)
+let remove_first (x : move) (l : move list) : move list =
+  let rec go = function [] -> [] | y :: r -> if move_key y = move_key x then r else y :: go r in go l
+let check_gi line f =
+  match f with
+  | ["GI"; xf; init; ops; res] ->
+    (match parse_model xf with
+     | None -> cmp_line "GI" line [("model:position-rejected-by-model-parser", "accepted", "rejected")]
+     | Some b ->
+       let opl = List.filter (fun x -> x <> "") (String.split_on_char ' ' ops) in
+       let resl = List.filter (fun x -> x <> "") (String.split_on_char ' ' res) in
+       if res = "TRAP" then cmp_line "GI" line [("spec:never-panics", "no-TRAP", "TRAP")] else
+       if List.length opl <> List.length resl then cmp_line "GI" line [("model:result count", string_of_int (List.length opl), string_of_int (List.length resl))] else begin
+         let full = hx "ffffffffffffffff" in
+         let imask = if init = "L" then full else hx (String.sub init 1 (String.length init - 1)) in
+         (* --- exact model --- *)
+         let g = ref (if init = "L" then api_legals_gen b else api_legals_masked_gen b imask) in
+         let gstack = ref [] in
+         let mres = List.map (fun op ->
+             let rest = String.sub op 1 (String.length op - 1) in
+             match op.[0] with
+             | 'n' -> let (r, g') = api_mg_next !g in g := g'; (match r with Some m -> move_s m | None -> "-")
+             | 'l' -> string_of_int (int_of_n (api_mg_len !g))
+             | 'e' -> b01 (api_mg_is_empty !g)
+             | 'h' -> let k = int_of_n (api_mg_len !g) in Printf.sprintf "%d:%d" k k
+             | 'm' -> g := api_mg_set_mask !g (hx rest); "."
+             | 'r' -> g := api_mg_remove !g (hx rest); "."
+             | 'x' -> let (g', r) = api_mg_remove_move !g (move_of_s rest) in g := g'; b01 r
+             | 'c' -> gstack := !g :: !gstack; "."
+             | 'b' -> (match !gstack with o :: r -> g := o; gstack := r | [] -> ()); "."
+             | _ -> "?") opl in
+         (* --- abstract monitor fed with the implementation's own answers --- *)
+         let legal = api_spec_legal_moves (api_abs b) in
+         let in_mask mk (m : move) = api_contains mk m.m_dst in
+         let content = ref (List.filter (in_mask imask) legal) in
+         let mask = ref imask in
+         let inprog = ref 0 in
+         let k1 = ref false and k2 = ref false in
+         let stack = ref [] in
+         let diffs = ref [] in
+         let tag () = (if !k1 then "[K1]" else "") ^ (if !k2 then "[K2]" else "") in
+         let add w e g = diffs := ("spec:" ^ w ^ tag (), e, g) :: !diffs in
+         let visible () = List.filter (in_mask !mask) !content in
+         let is_promo_pair (mv : move) = List.exists (fun (m : move) -> m.m_src = mv.m_src && m.m_dst = mv.m_dst && m.m_promo <> None) legal in
+         List.iter2 (fun op tok ->
+             let rest = String.sub op 1 (String.length op - 1) in
+             match op.[0] with
+             | 'n' ->
+               let vis = visible () in
+               if tok = "-" then (if vis <> [] then add "next returned None although masked legal moves remain" (string_of_int (List.length vis) ^ " remain") tok)
+               else begin
+                 let m = move_of_s tok in
+                 if List.exists (fun y -> move_key y = move_key m) vis then content := remove_first m !content
+                 else add "next yielded a move that is not a remaining legal move under the mask (or yielded it twice)" "one of the remaining moves" tok;
+                 if m.m_promo <> None then inprog := (!inprog + 1) mod 4
+               end
+             | 'l' -> let k = List.length (visible ()) in if string_of_int k <> tok then add "len = number of moves still to be yielded" (string_of_int k) tok
+             | 'e' -> let e = b01 (visible () = []) in if e <> tok then add "is_empty" e tok
+             | 'h' -> let k = List.length (visible ()) in let e = Printf.sprintf "%d:%d" k k in if e <> tok then add "size_hint" e tok
+             | 'm' -> if !inprog <> 0 then k2 := true; mask := hx rest
+             | 'r' -> if !inprog <> 0 then k2 := true; let bb = hx rest in content := List.filter (fun (m : move) -> not (api_contains bb m.m_dst)) !content
+             | 'x' -> if !inprog <> 0 then k2 := true;
+               let mv = move_of_s rest in
+               if is_promo_pair mv then k1 := true;
+               content := List.filter (fun y -> move_key y <> move_key mv) !content
+             | 'c' -> stack := (!content, !mask, !inprog) :: !stack
+             | 'b' -> (match !stack with (c, m, i) :: r -> content := c; mask := m; inprog := i; stack := r | [] -> ())
+             | _ -> ()) opl resl;
+         let mtag = if !k1 || !k2 then tag () else "" in
+         cmp_line "GI" line (("model:iterator results" ^ mtag, String.concat " " mres, res) :: List.rev !diffs)
+       end)
+  | _ -> failwith "gi fields"
+
+(* ---------- C11 / C12 / C13 search ---------- *)
+let mate_in_one_moves (p : position) : move list =
+  List.filter (fun m -> api_spec_classify (api_spec_make p m) = CheckMate) (api_spec_legal_moves p)
+let check_search line f =
+  match f with
+  | ["SR"; xf; k; mv; sc; depth; polls] ->
+    (match parse_model xf with
+     | None -> cmp_line "SR" line [("model:position-rejected-by-model-parser", "accepted", "rejected")]
+     | Some b ->
+       if mv = "TRAP" then cmp_line "SR" line [("spec:search never panics", "no-TRAP", "TRAP")] else begin
+       let kk = int_of_string k in
+       let pos = api_abs b in
+       let legal = api_spec_legal_moves pos in
+       let (((mmv, msc), mdepth), mfuel) = api_search (n_of_int kk) (api_nat_of_N (n_of_int (min (kk + 2) 70001))) (api_nat_of_N (n_of_int 48)) b in
+       let m1 = mate_in_one_moves pos in
+       let side_white = (b.b_turn = White) in
+       let mate1 = if side_white then "w1" else "b1" in
+       let checks = ref [] in
+       let add w e g = checks := (w, e, g) :: !checks in
+       (* spec-level facts that need no model *)
+       if mv <> "-" then begin
+         let m = move_of_s mv in
+         add "spec:returned move is legal in the searched position" "1" (b01 (List.exists (fun y -> move_key y = move_key m) legal));
+         if sc = mate1 then add "spec:mate-in-one score only with a mating move" "1" (b01 (List.exists (fun y -> move_key y = move_key m) m1))
+       end;
+       if legal = [] then add "spec:no legal move => no move returned" "-" mv;
+       (* model-dependent: which pass completed *)
+       if mfuel then add "model:fuel exhausted in the model" "0" "1" else begin
+         add "model:move" (match mmv with Some m -> move_s m | None -> "-") mv;
+         add "model:score" (string_of_score msc) sc;
+         add "model:max_depth" (string_of_int (int_of_n mdepth)) depth;
+         (* C11: a move is returned whenever legal moves exist and the first pass finished *)
+         if legal <> [] && mmv <> None then add "spec:move returned when the first pass completed" "some" (if mv = "-" then "-" else "some");
+         (* C12: mate in one found and reported when the first pass completed *)
+         if m1 <> [] && mmv <> None then begin
+           add "spec:mate-in-one score reported" mate1 sc;
+           add "spec:a mating move is returned" "1" (if mv = "-" then "0" else b01 (List.exists (fun y -> move_key y = move_key (move_of_s mv)) m1))
+         end
+       end;
+       ignore polls;
+       cmp_line "SR" line (List.rev !checks) end)
+  | ["MR"; xf; mf; a; m] ->
+    if a = "TRAP" then cmp_line "MR" line [("spec:search never panics", "no-TRAP", "TRAP")] else
+    (match parse_model xf, parse_model mf with
+     | Some b, Some mb ->
+       let is_mirror = api_spec_pos_eqb (api_abs mb) (api_spec_mirror (api_abs b)) in
+       let parse_list s = List.filter_map (fun x -> match String.split_on_char ':' x with [d; v] -> Some (d, v) | _ -> None) (String.split_on_char ',' s) in
+       let la = parse_list a and lm = parse_list m in
+       let common = List.filter (fun (d, _) -> List.mem_assoc d lm) la in
+       let exp = String.concat "," (List.map (fun (d, v) -> d ^ ":" ^ string_of_score (api_score_neg (score_of_string v))) common) in
+       let got = String.concat "," (List.map (fun (d, _) -> d ^ ":" ^ List.assoc d lm) common) in
+       cmp_line "MR" line [("model:harness mirror = spec mirror", "1", b01 is_mirror);
+                           ("spec:mirrored position has the negated score at every depth both searches completed", exp, got)]
+     | _ -> cmp_line "MR" line [("model:mirror position accepted", "accepted", if a = "MIRROR-REJECTED" then "impl-rejected" else "model-rejected")])
+  | _ -> failwith "search fields"
 
 (* ---------- C17 book ---------- *)
 let book_memo : (string, position option) Hashtbl.t = Hashtbl.create 40000
@@ -463,6 +595,8 @@ let dispatch line =
   | "TR" :: _ -> check_tr line f
   | ("PO" | "MV" | "CK" | "LG" | "FP" | "BL") :: _ -> check_chess line f
   | ("BK" | "BKS") :: _ -> check_book line f
+  | "GI" :: _ -> check_gi line f
+  | ("SR" | "MR") :: _ -> check_search line f
   | "DIST" :: _ -> ()
   | k :: _ -> bump ("UNKNOWN:" ^ k) 1; diff "UNKNOWN" k "" line
   | [] -> ()
